@@ -24,13 +24,15 @@ Box == (0 .. MaxMajor) \X (0 .. MaxMinor) \X (0 .. MaxPatch)
 Boundary == {v \in Box : /\ v[2] \in {0, 7, 8, 9, MaxMinor}
                          /\ v[3] \in {0, 3, 4, 5, MaxPatch}}
 
-VARIABLES header, idx, found, phase
-vars == <<header, idx, found, phase>>
+VARIABLES header, idx, found, phase, usingAt
+vars == <<header, idx, found, phase, usingAt>>
 
+\* where the file attaches SafeMath: inside the contract or by a file-level `using` directive
 Init == /\ \E v \in Box :
-             \/ header \in Shapes(Sol("", v))
+             \/ header \in Shapes(Sol("", v)) /\ usingAt = "contract"
              \/ /\ (Full \/ v \in Boundary)
                 /\ \E op \in Ops : header \in Shapes(Sol(op, v))
+                /\ usingAt \in {"contract", "file"}
         /\ idx = 1 /\ found = <<>> /\ phase = "scan"
 
 \* one iteration of the loop over PragmaDirective nodes
@@ -39,9 +41,9 @@ ScanPragma == /\ phase = "scan" /\ idx <= Len(header)
                  THEN found' = header[idx].ver /\ phase' = "done"
                  ELSE found' = found /\ phase' = phase
               /\ idx' = idx + 1
-              /\ UNCHANGED header
+              /\ UNCHANGED <<header, usingAt>>
 NoPragmaLeft == /\ phase = "scan" /\ idx > Len(header)
-                /\ phase' = "done" /\ UNCHANGED <<header, idx, found>>
+                /\ phase' = "done" /\ UNCHANGED <<header, idx, found, usingAt>>
 Next == ScanPragma \/ NoPragmaLeft
 Spec == Init /\ [][Next]_vars /\ WF_vars(Next)
 
@@ -55,6 +57,6 @@ GatesMonotone       == Done => \A w \in Boundary : MonotoneAt(found, w) /\ Monot
 Terminates          == <>Done
 
 DumpBehaviour ==
-    Done => PrintT(<<"REPLAY", ToJson([header |-> header, ver |-> found,
+    Done => PrintT(<<"REPLAY", ToJson([header |-> header, ver |-> found, usingAt |-> usingAt,
                                        gates |-> [d \in Detectors |-> Gate(d, found)]])>>)
 =============================================================================
